@@ -27,6 +27,15 @@
                                   recursive environment; the control becomes the record value
        - Proj                  -> [Op1Cont(RecordAccess f)]; on a record value the control becomes
                                   the field's thunk ([ptr])
+       - Seq (std.seq a b)     -> [Op1Cont(Seq)]: evaluate a, drop the value, continue with b
+       - Op2 OMerge (a & b)    -> merge.rs, for numbers, booleans and records all of whose fields
+                                  are STANDARD thunks (no dependency on a sibling field): fields of
+                                  one side keep their thunk ([revert] of a standard thunk is the
+                                  thunk itself); a field of both sides gets a new thunk holding
+                                  `copy1 & copy2` where copy_i is a COPY of the data of the side's
+                                  thunk ([Thunk::saturate]; [copy_cell] says what a copy inherits).
+                                  A record with a revertible field (recursive overriding) is
+                                  outside the model: explicit outcome [EOutOfFragment].
        - Fun                   -> if the top of the stack is an argument: [pop_arg_as_idx]
                                   (allocates a thunk), bind, continue with the body
        - weak head normal form -> top is an update frame: [update_at_indices] (the Rust code pops
@@ -48,13 +57,13 @@ From NV Require Import Mech.Syntax.
 Open Scope string_scope.
 Open Scope list_scope.
 
-Definition loc := nat.
+Notation loc := nat (only parsing).   (* thunk address = index in the heap *)
 Definition menv := list (string * loc).
 
 (* What a closure can hold: a source term, or an evaluated record (field -> thunk). *)
 Inductive code :=
 | CTm (t : tm)
-| CRecV (fs : list (string * loc)).
+| CRecV (fs : list (string * (loc * bool))).   (* field -> thunk, is the thunk revertible (has deps) *)
 
 Definition clos : Type := code * menv.
 
@@ -69,7 +78,8 @@ Inductive frame :=
 | FOp2First (o : binop) (c : clos)       (* Marker::Op2FirstCont: second operand pending *)
 | FOp2Second (o : binop) (v : clos)      (* Marker::Op2SecondCont: first operand evaluated *)
 | FIf (t e : clos)                       (* Op1Cont(IfThenElse) + its two Arg items *)
-| FProj (f : string).                    (* Op1Cont(RecordAccess f) *)
+| FProj (f : string)                     (* Op1Cont(RecordAccess f) *)
+| FSeq (c : clos).                       (* Op1Cont(Seq) + its Arg item: what to evaluate next *)
 
 Record config := mkcfg { ctrl : clos; stack : list frame; hp : heap }.
 
@@ -107,21 +117,81 @@ Definition is_value (c : clos) : bool :=
    arm and the `Thunk` arm call [enter_cache_index]).  "%" is not a Nickel identifier. *)
 Definition ptr (l : loc) : clos := (CTm (Var "%"), [("%", l)]).
 
-Definition binop_eval (o : binop) (a b : clos) : option clos :=
-  match fst a, fst b with
-  | CTm (Num x), CTm (Num y) =>
-      Some (match o with
-            | OAdd => (CTm (Num (x + y)), [])
-            | OSub => (CTm (Num (x - y)), [])
-            | OLt => (CTm (Bool (Z.ltb x y)), [])
-            end)
-  | _, _ => None
+Definition rfields := list (string * (loc * bool)).
+Definition locs_of (fl : rfields) : menv := map (fun p => (fst p, fst (snd p))) fl.
+Definition any_rev (fl : rfields) : bool := existsb (fun p => snd (snd p)) fl.
+
+(* the body of the thunk of a field defined on both sides of a merge *)
+Definition merge_body : tm := Op2 OMerge (Var "%1") (Var "%2").
+
+(* A copy of the data of a thunk ([ThunkData::clone]: made by [Thunk::saturate] for a standard
+   thunk, and by `NickelValue::with_pos_idx` / `make_unique` whenever the value block holding the
+   thunk is shared).
+     keep = true  : the pinned code (derived Clone): the closure AND the state (and the lock flag)
+                    are copied, so the copy of a thunk under evaluation is born black-holed
+                    although no update frame references it;
+     keep = false : the repair of proposed/C12-saturate-state.diff: a black-holed original gives a
+                    suspended copy (it still holds its unevaluated closure), never locked. *)
+Definition copy_cell (keep : bool) (c : cell) : cell :=
+  if keep then c
+  else mkcell (orig c) (cur c) (match st c with Blackholed => Suspended | s => s end) false.
+
+(* merge.rs [fields_merge_closurize] on the fields present on both sides: `saturate(t1)` and
+   `saturate(t2)` are copies of the two (standard) thunks, and a new standard thunk holds
+   `copy1 & copy2`. *)
+Fixpoint merge_center (keep : bool) (h : heap) (base : nat)
+         (cs : list (string * ((loc * bool) * (loc * bool)))) : list cell * rfields :=
+  match cs with
+  | [] => ([], [])
+  | (f, (p1, p2)) :: cs' =>
+      match nth_error h (fst p1), nth_error h (fst p2) with
+      | Some c1, Some c2 =>
+          let (cells, fl) := merge_center keep h (3 + base) cs' in
+          (copy_cell keep c1 :: copy_cell keep c2
+             :: new_cell (CTm merge_body, [("%1", base); ("%2", S base)]) :: cells,
+           (f, (2 + base, false)) :: fl)
+      | _, _ => ([], [])     (* dangling field thunk: unreachable *)
+      end
   end.
 
-(* RecRecord: thunks [length h ..] for the fields, each closed over env + all the fields. *)
-Definition alloc_rec (h : heap) (env : menv) (fs : list (string * tm)) : heap * list (string * loc) :=
-  let fl := combine (map fst fs) (seq (length h) (length fs)) in
-  let env' := fl ++ env in
+Inductive bres :=
+| BVal (r : clos) (cells : list cell)     (* result, thunks allocated by the operation *)
+| BErr (e : err).
+
+(* [eval_op2] / [merge]: both operands are weak head normal forms *)
+Definition binop_eval (keep : bool) (o : binop) (a b : clos) (h : heap) : bres :=
+  match o with
+  | OMerge =>
+      match fst a, fst b with
+      | CTm (Num x), CTm (Num y) =>
+          if Z.eqb x y then BVal (CTm (Num x), []) [] else BErr ENonMergeable
+      | CTm (Bool x), CTm (Bool y) =>
+          if Bool.eqb x y then BVal (CTm (Bool x), []) [] else BErr ENonMergeable
+      | CRecV fl1, CRecV fl2 =>
+          if any_rev fl1 || any_rev fl2 then BErr EOutOfFragment
+          else
+            let (cells, cfl) := merge_center keep h (length h) (center_part fl1 fl2) in
+            BVal (CRecV (left_part fl1 fl2 ++ cfl ++ left_part fl2 fl1), []) cells
+      | _, _ => BErr ENonMergeable
+      end
+  | _ =>
+      match fst a, fst b with
+      | CTm (Num x), CTm (Num y) =>
+          BVal (match o with
+                | OAdd => (CTm (Num (x + y)), [])
+                | OSub => (CTm (Num (x - y)), [])
+                | _ => (CTm (Bool (Z.ltb x y)), [])
+                end) []
+      | _, _ => BErr ETypeErr
+      end
+  end.
+
+(* RecRecord: thunks [length h ..] for the fields, each closed over env + all the fields; a field
+   mentioning a sibling gets a revertible thunk (closurize_rec_record + free_vars) *)
+Definition alloc_rec (h : heap) (env : menv) (fs : list (string * tm)) : heap * rfields :=
+  let names := map fst fs in
+  let fl := combine names (combine (seq (length h) (length fs)) (map (fun fe => fvb [] names (snd fe)) fs)) in
+  let env' := locs_of fl ++ env in
   (h ++ map (fun fe => new_cell (CTm (snd fe), env')) fs, fl).
 
 (* ---------------------------------------------------------------- one transition *)
@@ -145,8 +215,13 @@ Definition enter (l : loc) (c : config) : stepres :=
       end
   end.
 
+Section Machine.
+(* how the data of a thunk is copied, see [copy_cell]; the machine everything is proved about is
+   [keep = false] (notations [ret], [step], [run] below) *)
+Variable keep : bool.
+
 (* The control is a weak head normal form and no argument can be consumed. *)
-Definition ret (c : config) : stepres :=
+Definition ret_gen (c : config) : stepres :=
   let v := ctrl c in
   match stack c with
   | [] => Done
@@ -154,9 +229,9 @@ Definition ret (c : config) : stepres :=
   | FArg _ :: _ => Raise ENotAFunc
   | FOp2First o c2 :: s => Next (mkcfg c2 (FOp2Second o v :: s) (hp c))
   | FOp2Second o v1 :: s =>
-      match binop_eval o v1 v with
-      | Some r => Next (mkcfg r s (hp c))
-      | None => Raise ETypeErr
+      match binop_eval keep o v1 v (hp c) with
+      | BVal r cells => Next (mkcfg r s (hp c ++ cells))
+      | BErr e => Raise e
       end
   | FIf t e :: s =>
       match fst v with
@@ -168,14 +243,15 @@ Definition ret (c : config) : stepres :=
       match fst v with
       | CRecV fl =>
           match assoc fl f with
-          | Some l => Next (mkcfg (ptr l) s (hp c))
+          | Some (l, _) => Next (mkcfg (ptr l) s (hp c))
           | None => Raise EFieldMissing
           end
       | _ => Raise ETypeErr
       end
+  | FSeq c2 :: s => Next (mkcfg c2 s (hp c))
   end.
 
-Definition step (c : config) : stepres :=
+Definition step_gen (c : config) : stepres :=
   let env := snd (ctrl c) in
   match fst (ctrl c) with
   | CTm (Var x) =>
@@ -195,28 +271,35 @@ Definition step (c : config) : stepres :=
       let (h', fl) := alloc_rec (hp c) env fs in
       Next (mkcfg (CRecV fl, []) (stack c) h')
   | CTm (Proj e f) => Next (mkcfg (CTm e, env) (FProj f :: stack c) (hp c))
+  | CTm (Seq a b) => Next (mkcfg (CTm a, env) (FSeq (CTm b, env) :: stack c) (hp c))
   | CTm Fail => Raise EBlame
   | CTm (Lam x b) =>
       match stack c with
       | FArg a :: s =>
           Next (mkcfg (CTm b, (x, length (hp c)) :: env) s (hp c ++ [new_cell a]))
-      | _ => ret c
+      | _ => ret_gen c
       end
-  | CTm (Num _) | CTm (Bool _) | CRecV _ => ret c
+  | CTm (Num _) | CTm (Bool _) | CRecV _ => ret_gen c
   end.
 
 (* [eval_closure_impl] under the step budget of hook H1.  Returns the outcome, the configuration
    in which the loop stopped (its stack is what [Drop] will unwind) and the unused budget. *)
-Fixpoint run (fuel : nat) (c : config) : res clos * config * nat :=
+Fixpoint run_gen (fuel : nat) (c : config) : res clos * config * nat :=
   match fuel with
   | 0 => (OOF, c, 0)
   | S n =>
-      match step c with
-      | Next c' => run n c'
+      match step_gen c with
+      | Next c' => run_gen n c'
       | Done => (Val (ctrl c), c, n)
       | Raise e => (Err e, c, n)
       end
   end.
+
+End Machine.
+
+Notation ret := (ret_gen false).
+Notation step := (step_gen false).
+Notation run := (run_gen false).
 
 (* ---------------------------------------------------------------- unwinding *)
 
@@ -278,11 +361,11 @@ Fixpoint force (d : nat) (k : nat) (h : heap) (c : clos) : res data * frc :=
           | CTm (Bool b) => (Val (DBool b), ([], hp cf, k'))
           | CRecV fl =>
               map_res DRec
-                ((fix fields (fl : list (string * loc)) (h : heap) (k : nat)
+                ((fix fields (fl : rfields) (h : heap) (k : nat)
                     : res (list (string * data)) * frc :=
                     match fl with
                     | [] => (Val [], ([], h, k))
-                    | (f, l) :: fl' =>
+                    | (f, (l, _)) :: fl' =>
                         match fields fl' h k with
                         | (Val ds, (_, h1, k1)) =>
                             map_res (fun dv => (f, dv) :: ds) (force d' k1 h1 (ptr l))
@@ -310,7 +393,7 @@ Fixpoint query (k : nat) (h : heap) (c : clos) (path : list string)
           match fst w with
           | CRecV fl =>
               match assoc fl f with
-              | Some l => query k' (hp cf) (ptr l) path'
+              | Some (l, _) => query k' (hp cf) (ptr l) path'
               | None => (Err EFieldMissing, ([], hp cf, k'))
               end
           | _ => (Err EQueryNonRecord, ([], hp cf, k'))
@@ -346,11 +429,11 @@ Fixpoint spine_with (unlock_on_err : bool) (unw : list frame -> heap -> heap)
                   | CTm (Bool b) => (Val (DBool b), (hp cf, k'))
                   | CRecV fl =>
                       match
-                        (fix fields (fl : list (string * loc)) (h : heap) (k : nat)
+                        (fix fields (fl : rfields) (h : heap) (k : nat)
                            : res (list (string * data)) * (heap * nat) :=
                            match fl with
                            | [] => (Val [], (h, k))
-                           | (f, lf) :: fl' =>
+                           | (f, (lf, _)) :: fl' =>
                                match spine_with unlock_on_err unw d' k h lf with
                                | (Val dv, (h1, k1)) =>
                                    match fields fl' h1 k1 with
@@ -456,6 +539,26 @@ Fixpoint defs_of (h : list input) : list (string * tm) :=
   | [] => []
   | IDef x e :: h' => (x, e) :: defs_of h'
   | _ :: h' => defs_of h'
+  end.
+
+(* the session over the machine whose copies of thunk data keep the state (the pinned derived
+   Clone of ThunkData); only `eval` differs from [sess_step] *)
+Definition sess_step_satcopy (s : session) (i : input) : session * outcome :=
+  match i with
+  | IEval k e =>
+      match run_gen true k (mkcfg (CTm e, stop s) [] (sheap s)) with
+      | (r, cf, _) => (mksess (unwind (stack cf) (hp cf)) (stop s), out_of (fun v => OOk (obs_of v)) r)
+      end
+  | _ => sess_step s i
+  end.
+
+Fixpoint sess_run_satcopy (s : session) (h : list input) : session * list outcome :=
+  match h with
+  | [] => (s, [])
+  | i :: h' =>
+      let (s', o) := sess_step_satcopy s i in
+      let (s'', os) := sess_run_satcopy s' h' in
+      (s'', o :: os)
   end.
 
 (* The stand-alone run the property compares with: a fresh machine on `let x1 = e1 in ... e`. *)
